@@ -178,7 +178,7 @@ Print Assumptions C04_store_order_refuted.
     TypedReject.v: rejection side; TypedAccess.v: the typed store of a parse result; TypedExamples.v).
     The parser-model modules are required without Import: their names are written qualified. *)
 From ClapModel Require Parse.Cmd Parse.Build Parse.Valid Parse.Matcher Parse.Errors Parse.Parser.
-From ClapModel Require ParseProofs.Relations ParseProofs.Totality ParseProofs.Provenance ParseProofs.Dispatch ParseProofs.KindSound ParseProofs.Unparse ParseProofs.UnparseTop ParseProofs.Globals.
+From ClapModel Require ParseProofs.Relations ParseProofs.Totality ParseProofs.Provenance ParseProofs.Dispatch ParseProofs.KindSound ParseProofs.Unparse ParseProofs.UnparseTop ParseProofs.Globals ParseProofs.Invariant ParseProofs.IndexInv ParseProofs.TotalityMain.
 From ClapModel Require ParseProofs.TypedInv ParseProofs.TypedView ParseProofs.TypedAccess ParseProofs.TypedReject ParseProofs.TypedMerge ParseProofs.TypedExamples.
 
 (** The state predicate of round 2.  The matcher model stores raw values only (the typed values of
@@ -595,6 +595,82 @@ Theorem C04_parse_wrong_type :
               o) = TypedAccess.TSt.OErr (TypedAccess.TSt.Downcast (Cmd.vp_type vp) (TypedAccess.TSP.op_tag o)).
 Proof. exact TypedAccess.parse_wrong_type. Qed.
 Print Assumptions C04_parse_wrong_type.
+
+(** ... and at EVERY level of the recursion (the hypotheses of C02_level_indices: any depth, any entry state satisfying
+    the index invariant and the typed invariant -- in particular the fresh state a child level starts from):
+    the ArgMatches of the level satisfies the store invariant, *)
+Theorem C04_level_store_wf :
+  forall (rend : Cmd.vparser -> bytes -> bytes) (fuel : nat) (c : Cmd.cmd) (toks : list bytes)
+           (st0 st : Parser.ps),
+         Totality.tree_ok fuel c ->
+         Invariant.G c IndexInv.idx_inv TotalityMain.trivV st0 ->
+         Parser.get_matches_with fuel c toks st0 = Parser.ROk st ->
+         TypedAccess.TSP.wf_store (TypedAccess.store_of rend c (Matcher.mt_args (Parser.mt st))).
+Proof. exact TypedAccess.level_store_wf. Qed.
+Print Assumptions C04_level_store_wf.
+
+(** its accessors read the level's matcher entries (typed as above), *)
+Theorem C04_level_store_typed :
+  forall (rend : Cmd.vparser -> bytes -> bytes) (fuel : nat) (c : Cmd.cmd) (toks : list bytes)
+           (st0 st : Parser.ps),
+         Totality.tree_ok fuel c ->
+         TypedInv.TS c st0 ->
+         Parser.get_matches_with fuel c toks st0 = Parser.ROk st ->
+         forall (i : id) (en : entry),
+         TypedAccess.TSP.lookup (TypedAccess.store_of rend c (Matcher.mt_args (Parser.mt st))) i = Some en ->
+         exists ma : Matcher.marg,
+           Matcher.fm_get i (Matcher.mt_args (Parser.mt st)) = Some ma /\
+           en = TypedAccess.entry_of rend c i ma /\
+           TypedAccess.TSt.e_raw en = Matcher.m_raw ma /\
+           (forall (a : Cmd.arg) (vp : Cmd.vparser),
+            Cmd.find_arg c i = Some a ->
+            Cmd.a_vp a = Some vp ->
+            TypedAccess.TSt.e_type en = Some (Cmd.vp_type vp) /\
+            TypedAccess.TSt.e_vals en = map (map (fun r : bytes => (Cmd.vp_type vp, rend vp r))) (Matcher.m_raw ma) /\
+            (exists tvs : list (list TypedView.tv), TypedView.typed_of vp (Matcher.m_raw ma) tvs)).
+Proof. exact TypedAccess.level_store_typed. Qed.
+Print Assumptions C04_level_store_typed.
+
+(** every history of typed accesses on it refines the finite map, *)
+Theorem C04_level_store_access :
+  forall (rend : Cmd.vparser -> bytes -> bytes) (fuel : nat) (c : Cmd.cmd) (toks : list bytes)
+           (st0 st : Parser.ps),
+         Totality.tree_ok fuel c ->
+         Invariant.G c IndexInv.idx_inv TotalityMain.trivV st0 ->
+         Parser.get_matches_with fuel c toks st0 = Parser.ROk st ->
+         forall (dbg : bool) (ops : list TypedAccess.TSt.op),
+         let
+         '(xs, S') := TypedAccess.TSt.run dbg (TypedAccess.store_of rend c (Matcher.mt_args (Parser.mt st))) ops in
+          let
+          '(ys, m') :=
+           TypedAccess.TSP.arun dbg
+             (TypedAccess.TSt.valid_args (TypedAccess.store_of rend c (Matcher.mt_args (Parser.mt st))))
+             (TypedAccess.TSP.lookup (TypedAccess.store_of rend c (Matcher.mt_args (Parser.mt st)))) ops in
+           Forall2 TypedAccess.TSP.out_sim xs ys /\
+           (forall i : id, TypedAccess.TSP.lookup S' i = m' i) /\
+           TypedAccess.TSP.wf_store S' /\
+           TypedAccess.TSt.valid_args S' =
+           TypedAccess.TSt.valid_args (TypedAccess.store_of rend c (Matcher.mt_args (Parser.mt st))) /\
+           ~ In TypedAccess.TSt.OPanic xs.
+Proof. exact TypedAccess.level_store_access. Qed.
+Print Assumptions C04_level_store_access.
+
+(** and a failing access leaves every entry as the parser stored it. *)
+Theorem C04_level_failing_access :
+  forall (rend : Cmd.vparser -> bytes -> bytes) (fuel : nat) (c : Cmd.cmd) (toks : list bytes)
+           (st0 st : Parser.ps),
+         Totality.tree_ok fuel c ->
+         Invariant.G c IndexInv.idx_inv TotalityMain.trivV st0 ->
+         Parser.get_matches_with fuel c toks st0 = Parser.ROk st ->
+         forall (dbg : bool) (o : TypedAccess.TSt.op) (e : TypedAccess.TSt.merr),
+         fst (TypedAccess.TSt.step dbg (TypedAccess.store_of rend c (Matcher.mt_args (Parser.mt st))) o) =
+         TypedAccess.TSt.OErr e ->
+         forall i : id,
+         TypedAccess.TSP.lookup
+           (snd (TypedAccess.TSt.step dbg (TypedAccess.store_of rend c (Matcher.mt_args (Parser.mt st))) o)) i =
+         option_map (TypedAccess.entry_of rend c i) (Matcher.fm_get i (Matcher.mt_args (Parser.mt st))).
+Proof. exact TypedAccess.level_failing_access. Qed.
+Print Assumptions C04_level_failing_access.
 
 (** `p --num +7 -vv --qu abc sub --k=2` parses; line, env and literal values stored at both levels *)
 Theorem C04_ex_parse :
